@@ -14,6 +14,7 @@ Directive language (each directive is a line starting with `//@`):
   //@ trait <src> <Name> [as `hdr`]     open a trait copied from <src>;     ... //@ endtrait
   //@ impl <src> `<header>` [as `hdr`] [nth=k]   open an impl block;        ... //@ endimpl
   //@ expanded-impl `<header>`          impl block taken from rustc's macro-expanded source
+  //@ impl expanded `<header>` bounds `<where predicates>`   derive-generated impl; its where-clause is completed with the given bounds (rule R21)
   //@ assoc <Name>                      (inside trait/impl) copy `type Name ...;`
   //@ fn-absent <name>                  (inside impl) structural obligation: no function of this name in this configuration
   //@ forbid-call <name> [allow=N `item`]   unit-level structural obligation per verified function: no call of <name> (any spelling)
@@ -676,8 +677,14 @@ class Extractor:
         if header_q:
             self.log.rw('HDR', rel, line0, norm(header), header_q[0])
             header = header_q[0]
-        self.out.emit(header + ' {', 'repo', None, rel, line0)
         name_header = norm(header)
+        if 'bounds' in bare:
+            # rule R21: the where-clause of a derive-generated impl is completed with the bounds the layout template needs (the derive states them
+            # itself for every encoded member; it drops them for a member it skips, and the text would then be rejected instead of refuted)
+            extra = quoted[-1]
+            self.log.rw('R21', rel, line0, norm(header), 'where-clause completed with `%s`' % extra)
+            header = header.rstrip().rstrip(',') + (', ' if re.search(r'\bwhere\b', header) else ' where ') + extra
+        self.out.emit(header + ' {', 'repo', None, rel, line0)
         if bare[0] == 'expanded' and not (norm(it.header) + ' ').startswith(norm(quoted[0]) + ' '):
             # a hand-written impl standing in for the derived one keeps the obligation names of the derived one
             name_header = norm(global_rules(quoted[0], rel, line0, Log()))
